@@ -564,7 +564,6 @@ const RECORDED: &[&str] = &[
     "unsized-array-unbound",
     "nested-array-unbound",
     "struct-resource-unbound",
-    "numthreads-ambiguous",
 ];
 
 fn show_meta(m: &rssl::ir::export::PipelineDescription) -> String {
@@ -1011,6 +1010,8 @@ const FRONT_ERRORS: &[(&str, &str)] = &[
     ("property declared multiple times", "PipelinePropertyDuplicate"),
     ("graphics pipeline state may only be applied to a graphics pipeline", "PipelinePropertyRequiresGraphicsPipeline"),
     ("static sampler has unexpected binding index", "StaticSamplerUnexpectedBindingIndex"),
+    // since fix 0f5be73: a second attribute of a kind the function already has (two `[numthreads]`)
+    ("function attribute 'numthreads' is given more than once", "FunctionAttributeDuplicate"),
 ];
 
 fn run_case(case: &Case, tgt: Tgt, mode: &Mode, out: &mut Out, hist: &mut Hist) {
@@ -1060,6 +1061,10 @@ fn run_case(case: &Case, tgt: Tgt, mode: &Mode, out: &mut Out, hist: &mut Hist) 
             } else if e.contains("metal generate: UnsupportedBindGroupIndex(") {
                 // a bind group beyond the argument buffers Metal provides is refused cleanly (predicted by the model)
                 "err:UnsupportedBindGroupIndex".to_string()
+            } else if e.contains("metal generate: UnboundGlobal") {
+                // since fix 2ba03a4: a stage entry point that reaches an extern global without a place in an argument
+                // buffer (2-D resource array, struct holding resources) is refused cleanly (predicted by the model)
+                "err:UnboundGlobal".to_string()
             } else if let Some(c) = known {
                 format!("err:{}", c)
             } else {
@@ -1067,7 +1072,7 @@ fn run_case(case: &Case, tgt: Tgt, mode: &Mode, out: &mut Out, hist: &mut Hist) 
             };
             hist.add("outcome=error");
             hist.add(&format!("error={}", obs.chars().take(60).collect::<String>()));
-            let skip = !(obs == "err:none" || obs == "err:unknown" || obs == "err:UnsupportedBindGroupIndex" || known.is_some());
+            let skip = !(obs == "err:none" || obs == "err:unknown" || obs == "err:UnsupportedBindGroupIndex" || obs == "err:UnboundGlobal" || known.is_some());
             out.case(&req, &obs, if skip { "SKIP:compile error" } else { "ok" });
         }
         Raw::Panic(p) => {
@@ -1186,7 +1191,7 @@ fn mutate(case: &mut Case, rng: &mut Rng, hist: &mut Hist) {
         }
     }
     // a two-dimensional resource array / a global of a struct type that holds resources (reached by an entry point in
-    // half of the cases only: Metal panics when it is)
+    // half of the cases only: Metal refuses the pipeline with `UnboundGlobal` when it is)
     if !case.res.is_empty() && rng.chance(1, 10) {
         let k = rng.below(case.res.len() as u64) as usize;
         let r = &mut case.res[k];
